@@ -29,6 +29,8 @@ type flowCfg struct {
 	CallerRR   bool // the caller's requests already carry a Record-Route (an upstream proxy recorded itself)
 	TwoVias    bool // the caller's requests come through an upstream proxy: two Via entries ...
 	Joined     bool // ... comma-joined into one line (also: responses echo the Via values joined)
+	lazy       bool // a TCP caller connects when it sends its first message (concurrent pass only)
+	second     bool // the service has a second listens entry (127.0.0.2, own backends); only the concurrent pass sets it
 }
 
 func (c flowCfg) String() string {
@@ -83,7 +85,17 @@ type flowRun struct {
 	health string
 	pert   *flowPert // one environment event placed before the injection with index pert.At (nil: none)
 	inj    int       // injections so far
+	caller string    // the caller's address (flowCaller unless two flows share one world)
+	brPfx  string    // prefix of the branches this flow's parties generate
+	co     *dualCoord
+	lstIP  string   // address of the listens entry this flow enters through (ports 5060 udp / 5062 tcp)
+	backs  []string // the backends of that entry
 }
+
+func (f *flowRun) lst() string    { return f.lstIP + ":5060" }
+func (f *flowRun) lstTCP() string { return f.lstIP + ":5062" }
+
+func (f *flowRun) callerIP() string { return strings.Split(f.caller, ":")[0] }
 
 // flowPert is one behaviour-neutral environment event placed between two steps of a flow: time
 // passing (the resolver period, the transaction timers, half a dialog timeout), traffic the
@@ -161,16 +173,24 @@ func (f *flowRun) perturb() {
 const flowCaller, flowLst, flowLstTCP = "127.0.0.9:5060", "127.0.0.1:5060", "127.0.0.1:5062"
 
 var flowBackends = []string{"127.0.1.1:7000", "127.0.1.2:7000", "127.0.1.3:7000"}
+var flowBackends2 = []string{"127.0.1.4:7000", "127.0.1.5:7000", "127.0.1.6:7000"}
 
 func startFlow(cfg flowCfg, flow string) *flowRun {
 	l := RListen{Addr: "127.0.0.1", UDP: 5060, TCP: 5062, MustRR: cfg.MustRR, Backends: []string{"udp://" + flowBackends[0], "udp://" + flowBackends[1], "udp://" + flowBackends[2]}}
 	if cfg.NoReceived {
 		l.NoReceived = "true"
 	}
-	rc := RCfg{Name: "svc.example.com", DialogTimeout: 1200, Listens: []RListen{l},
+	ls := []RListen{l}
+	if cfg.second {
+		l2 := l
+		l2.Addr = "127.0.0.2"
+		l2.Backends = []string{"udp://" + flowBackends2[0], "udp://" + flowBackends2[1], "udp://" + flowBackends2[2]}
+		ls = append(ls, l2)
+	}
+	rc := RCfg{Name: "svc.example.com", DialogTimeout: 1200, Listens: ls,
 		Routes: []RRoute{{Dests: []string{"static.example.org"}, Protocol: "udp", NextHop: "127.0.3.1:5080"}, {Dests: []string{"static2.example.org"}, Protocol: "udp", NextHop: "127.0.3.3:5060"}}}
-	f := &flowRun{w: StartRelayWorld(SimOpts{}, rc), cfg: cfg, flow: flow}
-	if cfg.CallerTCP {
+	f := &flowRun{w: StartRelayWorld(SimOpts{}, rc), cfg: cfg, flow: flow, caller: flowCaller, brPfx: "fl", lstIP: "127.0.0.1", backs: flowBackends}
+	if cfg.CallerTCP && !cfg.lazy {
 		f.conn = f.w.Client("caller", "127.0.0.9", flowLstTCP)
 	}
 	return f
@@ -190,25 +210,31 @@ func (f *flowRun) record(step, from, src string, m *WMsg, expect string) *flowEv
 
 // fromCaller injects a message of the caller (over its UDP socket or its TCP connection).
 func (f *flowRun) fromCaller(step string, m *WMsg, expect string) *flowEv {
+	if f.co != nil {
+		return f.co.step(f, step, "caller", f.caller, m, expect)
+	}
 	f.perturb()
 	f.w.Observe()
 	if f.cfg.CallerTCP {
 		f.w.SendTCP(f.conn, m.Render())
 	} else {
-		f.w.SendUDP(flowCaller, flowLst, m.Render())
+		f.w.SendUDP(f.caller, f.lst(), m.Render())
 	}
-	return f.record(step, "caller", flowCaller, m, expect)
+	return f.record(step, "caller", f.caller, m, expect)
 }
 
 // fromBackend injects a message of a backend (UDP from its configured address).
 func (f *flowRun) fromBackend(step, backend string, m *WMsg, expect string) *flowEv {
+	if f.co != nil {
+		return f.co.step(f, step, "callee", backend, m, expect)
+	}
 	f.perturb()
 	f.w.Observe()
-	f.w.SendUDP(backend, flowLst, m.Render())
+	f.w.SendUDP(backend, f.lst(), m.Render())
 	return f.record(step, "callee", backend, m, expect)
 }
 
-func (f *flowRun) branch() string { f.seq++; return fmt.Sprintf("z9hG4bKfl%d", f.seq) }
+func (f *flowRun) branch() string { f.seq++; return fmt.Sprintf("z9hG4bK%s%d", f.brPfx, f.seq) }
 
 type flowDlg struct {
 	k       int
@@ -231,7 +257,7 @@ func (f *flowRun) callerReq(method string, d *flowDlg, toTag string, branch stri
 	if branch == "" {
 		branch = f.branch()
 	}
-	vias := []string{"SIP/2.0/" + tr + " " + flowCaller + ";branch=" + branch + ";rport"}
+	vias := []string{"SIP/2.0/" + tr + " " + f.caller + ";branch=" + branch + ";rport"}
 	// CANCEL and the ACK for a non-2xx are hop-by-hop: they carry the top Via of the INVITE only (RFC 3261 9.1, 17.1.1.3)
 	hopByHop := method == "CANCEL" || (method == "ACK" && !freshBranch)
 	if f.cfg.TwoVias && !hopByHop {
@@ -250,12 +276,12 @@ func (f *flowRun) callerReq(method string, d *flowDlg, toTag string, branch stri
 		d.cseq++
 	}
 	sp := MsgSpec{Method: method, RURI: "sip:bob@svc.example.com", Vias: vias, From: "\"Alice\" <sip:alice@ua.example.net>;tag=" + d.fromTag, To: to, CallID: f.callID(d.k),
-		CSeq: fmt.Sprintf("%d %s", d.cseq, method), Extra: append([]WHdr{{"Contact", "<sip:alice@127.0.0.9:5060>"}}, extra...)}
+		CSeq: fmt.Sprintf("%d %s", d.cseq, method), Extra: append([]WHdr{{"Contact", "<sip:alice@" + f.caller + ">"}}, extra...)}
 	if f.cfg.CallerRR {
 		sp.RRs = []string{"<sip:10.8.0.1;lr>"}
 	}
 	if method == "INVITE" || method == "UPDATE" || method == "MESSAGE" {
-		sp.Body = []byte(fmt.Sprintf("v=0\r\no=alice %d %d IN IP4 127.0.0.9\r\ns=%s-%s-%d\r\n", d.k, d.cseq, f.flow, method, d.cseq))
+		sp.Body = []byte(fmt.Sprintf("v=0\r\no=alice %d %d IN IP4 %s\r\ns=%s-%s-%d\r\n", d.k, d.cseq, f.callerIP(), f.flow, method, d.cseq))
 		sp.Extra = append(sp.Extra, WHdr{"Content-Type", "application/sdp"})
 	}
 	return sp.Build()
@@ -265,11 +291,11 @@ func (f *flowRun) callerReq(method string, d *flowDlg, toTag string, branch stri
 // reaches the caller by a Route entry.
 func (f *flowRun) calleeReq(method string, d *flowDlg, extra ...WHdr) *WMsg {
 	d.rcseq++
-	route := "<sip:" + flowCaller + ";lr>"
+	route := "<sip:" + f.caller + ";lr>"
 	if f.cfg.CallerTCP {
-		route = "<sip:" + flowCaller + ";transport=tcp;lr>"
+		route = "<sip:" + f.caller + ";transport=tcp;lr>"
 	}
-	sp := MsgSpec{Method: method, RURI: "sip:alice@127.0.0.9:5060", Vias: []string{"SIP/2.0/UDP " + d.backend + ";branch=" + f.branch()}, Routes: []string{route},
+	sp := MsgSpec{Method: method, RURI: "sip:alice@" + f.caller, Vias: []string{"SIP/2.0/UDP " + d.backend + ";branch=" + f.branch()}, Routes: []string{route},
 		From: "<sip:bob@svc.example.com>;tag=" + d.toTag, To: "\"Alice\" <sip:alice@ua.example.net>;tag=" + d.fromTag, CallID: f.callID(d.k), CSeq: fmt.Sprintf("%d %s", 100+d.rcseq, method),
 		Extra: append([]WHdr{{"Contact", "<sip:bob@" + d.backend + ">"}}, extra...)}
 	return sp.Build()
@@ -510,7 +536,7 @@ func flowSubscribe(f *flowRun, k int) {
 		f.fromBackend("200-refresh", re.dest(), f.resp(rrel, 200, d.toTag, WHdr{"Expires", "3600"}), "caller")
 	}
 	// (b) a subscription issued by a backend and answered by the caller: pinned to that backend
-	b := &flowDlg{k: k + 1, fromTag: "as1", toTag: "bs1", backend: flowBackends[1]}
+	b := &flowDlg{k: k + 1, fromTag: "as1", toTag: "bs1", backend: f.backs[1]}
 	se := f.fromBackend("SUBSCRIBE-by-backend", b.backend, f.calleeReq("SUBSCRIBE", b, WHdr{"Event", "presence"}, WHdr{"Expires", "3600"}), "caller")
 	srel := se.relayed()
 	if srel == nil {
@@ -533,7 +559,7 @@ func flowRegister(f *flowRun, k int) {
 	}
 	e = f.fromCaller("REGISTER-with-credentials", f.callerReq("REGISTER", d, "", "", WHdr{"Expires", "600"}, WHdr{"Authorization", "Digest username=\"alice\", realm=\"svc\", nonce=\"n1\", uri=\"sip:svc.example.com\", response=\"00\""}), "")
 	if rel := e.relayed(); rel != nil {
-		f.fromBackend("200-REGISTER", e.dest(), f.resp(rel, 200, "reg2", WHdr{"Contact", "<sip:alice@127.0.0.9:5060>;expires=600"}), "caller")
+		f.fromBackend("200-REGISTER", e.dest(), f.resp(rel, 200, "reg2", WHdr{"Contact", "<sip:alice@" + f.caller + ">;expires=600"}), "caller")
 	}
 	for i := 0; i < 3; i++ {
 		o := &flowDlg{k: k + 80 + i, fromTag: fmt.Sprintf("p%d", i)}
@@ -592,7 +618,7 @@ func flowStaticCall(f *flowRun, k int) {
 		f.abort = "INVITE not relayed to the static next hop"
 		return
 	}
-	if vs, _ := rel.ViaStack(); len(vs) < 2 || vs[0].Host != "127.0.0.1" {
+	if vs, _ := rel.ViaStack(); len(vs) < 2 || vs[0].Host != f.lstIP {
 		f.abort = "the proxy did not stay on the path"
 		return
 	}
@@ -677,10 +703,10 @@ func flowExactlyOnce(requests bool) flowOracle {
 			if e.Expect == "caller-later-final" && f.cfg.CallerTCP {
 				// a further final response of the transaction (retransmitted or forked 200): C12 leaves the
 				// connection open, C02 asks for the Via entry's target - the connection or an attempt towards it
-				if len(e.Pkts) == 1 && e.Pkts[0].Proto == "tcp" && (e.Pkts[0].Conn == f.conn.Peer().ID() || e.Pkts[0].To == flowCaller) {
+				if len(e.Pkts) == 1 && e.Pkts[0].Proto == "tcp" && (e.Pkts[0].Conn == f.conn.Peer().ID() || e.Pkts[0].To == f.caller) {
 					continue
 				}
-				if len(e.Pkts) == 0 && len(e.Dials) > 0 && strings.HasPrefix(e.Dials[0], "127.0.0.9:") {
+				if len(e.Pkts) == 0 && len(e.Dials) > 0 && strings.HasPrefix(e.Dials[0], f.callerIP()+":") {
 					continue
 				}
 				out = append(out, flowViolation{"response-not-relayed-once", flowDesc(f, e, "expected on the caller's connection or a connection attempt towards the caller")})
@@ -696,14 +722,14 @@ func flowExactlyOnce(requests bool) flowOracle {
 				if f.cfg.CallerTCP {
 					if e.Sent.IsRequest() {
 						// a request of the callee reaches the caller by its Route entry (a connection to its address)
-						if e.Pkts[0].Proto != "tcp" || to != flowCaller {
-							out = append(out, flowViolation{"request-wrong-destination", flowDesc(f, e, "expected over TCP to "+flowCaller)})
+						if e.Pkts[0].Proto != "tcp" || to != f.caller {
+							out = append(out, flowViolation{"request-wrong-destination", flowDesc(f, e, "expected over TCP to "+f.caller)})
 						}
 					} else if e.Pkts[0].Proto != "tcp" || e.Pkts[0].Conn != f.conn.Peer().ID() || len(e.Dials) != 0 {
 						out = append(out, flowViolation{"response-not-on-the-callers-connection", flowDesc(f, e, "expected on the TCP connection the request arrived on, no new connection")})
 					}
-				} else if to != flowCaller || e.Pkts[0].Proto != "udp" {
-					out = append(out, flowViolation{map[bool]string{true: "request-wrong-destination", false: "response-wrong-destination"}[requests], flowDesc(f, e, "expected over UDP to "+flowCaller)})
+				} else if to != f.caller || e.Pkts[0].Proto != "udp" {
+					out = append(out, flowViolation{map[bool]string{true: "request-wrong-destination", false: "response-wrong-destination"}[requests], flowDesc(f, e, "expected over UDP to "+f.caller)})
 				}
 			case strings.HasPrefix(e.Expect, "127.0.3."):
 				if to != e.Expect {
@@ -711,7 +737,7 @@ func flowExactlyOnce(requests bool) flowOracle {
 				}
 			default:
 				isB := false
-				for _, b := range flowBackends {
+				for _, b := range f.backs {
 					if to == b {
 						isB = true
 					}
@@ -741,6 +767,9 @@ func flowPinned(f *flowRun) []flowViolation {
 
 // flowRotation (C05): requests without a dialog walk the rotation: three consecutive ones reach three backends.
 func flowRotation(f *flowRun) []flowViolation {
+	if f.co != nil {
+		return nil // two flows share the rotation: "consecutive" dispatches of one flow are not consecutive
+	}
 	var seq []string
 	var steps []string
 	for _, e := range f.evs {
@@ -778,7 +807,7 @@ func flowViaRR(f *flowRun) []flowViolation {
 		}
 		top := got[0]
 		br, ok := findPar(top.Pars, "branch")
-		if top.Host != "127.0.0.1" || top.Port != "5060" || top.Transport != "UDP" || !ok || !strings.HasPrefix(br.V, "z9hG4bK") {
+		if top.Host != f.lstIP || top.Port != "5060" || top.Transport != "UDP" || !ok || !strings.HasPrefix(br.V, "z9hG4bK") {
 			out = append(out, flowViolation{"via-names-wrong-listener", flowDesc(f, e, "top Via "+top.String())})
 			continue
 		}
@@ -802,7 +831,7 @@ func flowViaRR(f *flowRun) []flowViolation {
 		if len(inR) > 0 || f.cfg.MustRR {
 			want++
 		}
-		if len(gotR) != want || (want > len(inR) && (gotR[0].URI.Host != "127.0.0.1" || gotR[0].URI.Port != "5060")) || naList(gotR[len(gotR)-len(inR):]) != naList(inR) {
+		if len(gotR) != want || (want > len(inR) && (gotR[0].URI.Host != f.lstIP || gotR[0].URI.Port != "5060")) || naList(gotR[len(gotR)-len(inR):]) != naList(inR) {
 			out = append(out, flowViolation{"record-route-policy", flowDesc(f, e, fmt.Sprintf("Record-Route %s, expected %d entries (the listener's ahead of %s)", naList(gotR), want, naList(inR)))})
 		}
 	}
@@ -1134,6 +1163,9 @@ func ReplayFlow(raw []byte, oracles ...flowOracle) (string, bool) {
 			return "flow-layout-destination", true
 		}
 		return "", true
+	}
+	if cl, ok := replayDual(raw, oracles...); ok {
+		return cl, true
 	}
 	var cs struct {
 		Flow string `json:"flow"`
